@@ -400,7 +400,7 @@ def random_scenario(seed, nt_range=(5, 12), fail_prob=0.35, slow_deps=True):
     return sc
 
 
-def barrier_scenario(size, position, seed=0, shared=False):
+def barrier_scenario(size, position, seed=0, shared=False, chatty=False):
     """C16: a group of `size` members, each waiting until all the others have started.
     shared: every member resolves the command to the same executable file (a common command directory)."""
     rng = random.Random(seed)
@@ -430,8 +430,16 @@ def barrier_scenario(size, position, seed=0, shared=False):
         scripts["build|" + m] = [{"op": "wait", "tasks": [["build", o, "started"] for o in members],
                                   "timeout_ms": 60000, "on_timeout": "barrier_timeout"},
                                  {"op": "out", "text": "member %s done\n" % m}, {"op": "exit", "code": 0}]
+        if chatty:
+            # every member first prints more than a pipe holds (on both streams) and only then announces itself: a member
+            # whose output is not being read while another one runs never gets to announce itself
+            scripts["build|" + m] = [{"op": "out_repeat", "text": "chatter of %s %s\n" % (m, "c" * 60), "times": 4000},
+                                     {"op": "out_repeat", "stream": "stderr", "text": "stderr chatter of %s %s\n" % (m, "e" * 60), "times": 4000},
+                                     {"op": "touch", "path": "announced-%s" % m},
+                                     {"op": "wait", "paths": ["announced-%s" % o for o in members], "timeout_ms": 40000, "on_timeout": "barrier_timeout"},
+                                     {"op": "exit", "code": 0}]
     sc = {"targets": ts, "commands": cmds, "kinds": {}, "fou": False, "scripts": scripts, "mode": "all",
-          "label": "barrier-%d-%s%s" % (size, position, "-shared" if shared else ""), "timeout": 170}
+          "label": "barrier-%d-%s%s%s" % (size, position, "-shared" if shared else "", "-chatty" if chatty else ""), "timeout": 170}
     if shared:
         for t in ts:
             if t["path"] in members:
